@@ -369,6 +369,10 @@ def run(prog, rep):
             rep.instance('R4', f'{fq}: {norm(mnode)} guarded by `if self._lock: raise`')
             ok = bool(tests) and stn and any(cfg.edge_dominates(t, 'f', stn[0]) for t in tests) and \
                 any(isinstance(x, ast.Raise) for t in tests for x in ast.walk(t.ast._parent))
+            if not ok and name == 'finalize' and stn:
+                # finalize itself may rearrange the table on its way from open to finalized: only while the record is still open
+                ntests = [t for t in cfg.nodes if t.kind == 'test' and t.tag == 'if' and ctext(t.ast) in ('not ' + guard_txt, guard_txt + ' is False', guard_txt + ' == False')]
+                ok = any(cfg.edge_dominates(t, 't', stn[0]) for t in ntests) or any(cfg.edge_dominates(t, 'f', stn[0]) for t in tests)
             if not ok:
                 rep.violation('R4', loc(mmod, mnode), fq, norm(mnode),
                               f'{fq} changes the node table without first testing that the record is not finalized')
@@ -392,21 +396,35 @@ def run(prog, rep):
             rep.violation('R4', loc(mmod, f), 'MaintenanceInfo.copy', norm(f),
                           'the (unfinalized) copy shares the node table of the original: add/rem on the copy alter a '
                           'finalized record')
-    # the entries are mutable objects: a record keeps and hands out copies of them, never the object a caller holds
+    # the entries are mutable objects: once a record is finalized nobody else holds one of its entries - finalize() detaches them
+    # (copies every stored entry), the accessors of a finalized record hand out copies, and copy() copies them
     ENTRY_COPIERS = ('replace', 'deepcopy', 'MaintenanceEntry', '_copy_entry', 'copy_entry')
-    for mname_ in ('add', 'get', 'copy', 'list_details', 'iter'):
+
+    def copies_entries(f_):
+        return any(isinstance(c, ast.Call) and call_name(c) in ENTRY_COPIERS for c in ast.walk(f_)) or \
+            any(isinstance(c, ast.Call) and call_name(c) == 'copy' and
+                not (isinstance(c.func, ast.Attribute) and (ast.unparse(c.func.value).endswith('_nodes') or
+                                                             (isinstance(c.func.value, ast.Name) and c.func.value.id == 'self')))
+                for c in ast.walk(f_))
+    fz_ = mi.methods.get('finalize')
+    detaches = fz_ is not None and copies_entries(fz_) and any(isinstance(a, ast.Assign) and any(ast.unparse(t) == 'self._nodes' for t in a.targets) for a in ast.walk(fz_))
+    stores_copy = mi.methods.get('add') is not None and copies_entries(mi.methods['add'])
+    rep.instance('R4', f'MaintenanceInfo: entries detached from their holders when the record is finalized: {detaches}; or copied when added: {stores_copy}')
+    if not detaches and not stores_copy:
+        rep.violation('R4', loc(mmod, fz_ or mi.node), 'MaintenanceInfo.finalize', 'entries stay shared with whoever added or fetched them',
+                      'the MaintenanceEntry objects of a record are mutable and shared with the caller of add() (and of get() before the record was '
+                      'finalized): unless finalize() replaces them by copies (or add() stores a copy), a holder can change state or dates of a '
+                      'finalized record, which add / rem / pop refuse to do')
+    for mname_ in ('get', 'copy', 'list_details', 'iter'):
         f_ = mi.methods.get(mname_)
         if f_ is None:
             continue
-        copies_entries = any(isinstance(c, ast.Call) and call_name(c) in ENTRY_COPIERS for c in ast.walk(f_)) or \
-            any(isinstance(c, ast.Call) and call_name(c) == 'copy' and isinstance(c.func, ast.Attribute) and
-                not ast.unparse(c.func.value).endswith('_nodes') and not (isinstance(c.func.value, ast.Name) and c.func.value.id == 'self') for c in ast.walk(f_))
-        rep.instance('R4', f'MaintenanceInfo.{mname_}: entries are copied on the way in / out: {copies_entries}')
-        if not copies_entries:
+        ok_ = copies_entries(f_)
+        rep.instance('R4', f'MaintenanceInfo.{mname_}: entries of a finalized record are handed out as copies: {ok_}')
+        if not ok_:
             rep.violation('R4', loc(mmod, f_), f'MaintenanceInfo.{mname_}', 'entry objects shared with the caller',
-                          f'MaintenanceInfo.{mname_} passes the MaintenanceEntry objects themselves (mutable dataclass instances): whoever holds '
-                          f'one - the caller of add(), the receiver of get() / list_details() / iter(), an unfinalized copy() - can change its '
-                          f'state or dates and thereby alter a finalized record, which add / rem / pop refuse to do')
+                          f'MaintenanceInfo.{mname_} passes the MaintenanceEntry objects of the record themselves (mutable dataclass instances): '
+                          f'whoever receives one can change its state or dates and thereby alter a finalized record')
     # finalize sets the flag; to_json requires finalized; from_json finalizes
     fz = mi.methods.get('finalize')
     rep.instance('R4', 'finalize sets the flag; from_json finalizes')
@@ -531,7 +549,7 @@ CL = 'fim/slivers/capacities_labels.py'
 MM = 'fim/slivers/maintenance_mode.py'
 MUTANTS = [
     {'name': 'maintenance-get-hands-out-the-entry', 'file': 'fim/slivers/maintenance_mode.py', 'rule': 'R4',
-     'find': "        return dataclasses.replace(entry) if entry is not None else None\n", 'replace': "        return entry\n"},
+     'find': "        return copy.copy(entry) if self._lock and entry is not None else entry\n", 'replace': "        return entry\n"},
     {'name': 'unknown-keys-reach-the-setters', 'file': 'fim/slivers/capacities_labels.py', 'rule': 'R2',
      'find': "        for k in [k for k in d if k not in ret.__dict__]:\n", 'replace': "        for k in []:\n"},
     {'name': 'gateway-wraps-absent', 'file': 'fim/slivers/gateway.py', 'rule': 'R9',
